@@ -805,7 +805,7 @@ class ExprMixin(object):
                     return self.ok(s2, val)
                 c = self.find_method_contract(cls, attr)
                 if c is not None and c.kind == 'property':
-                    return self.call_contract(s2, c, [v], {}, node, recv=v)
+                    return self.run_ghost_at(node, self.call_contract(s2, c, [v], {}, node, recv=v), args=[v], name=attr)
                 if c is not None:
                     return self.ok(s2, mk_py(('bound', v, attr)))
                 bm = self.builtin_base_method(cls, attr)
